@@ -55,7 +55,7 @@ func (r reqObj) docs(k string) bsonkit.List {
 	return l
 }
 
-func (r reqObj) str(k string) string { s, _ := r[k].(string); return s }
+func (r reqObj) str(k string) string   { s, _ := r[k].(string); return s }
 func (r reqObj) boolean(k string) bool { b, _ := r[k].(bool); return b }
 
 func init() {
